@@ -17,23 +17,27 @@ From Coq Require Import List ZArith Bool Arith.
 Import ListNotations.
 
 (* ---- python values that handlers produce *)
-Inductive pyval := PNone | PInt (z : Z) | PErr | PList (l : list pyval).
+Inductive pyval := PNone | PInt (z : Z) | PErr | PList (l : list pyval)
+                 | PRef (d : nat).      (* the Value object of event d (a handler returned self.fire(...)) *)
 
 Definition is_none (v : pyval) : bool := match v with PNone => true | _ => false end.
 Definition is_err (v : pyval) : bool := match v with PErr => true | _ => false end.
 Definition is_list (v : pyval) : bool := match v with PList _ => true | _ => false end.
+Definition is_ref (v : pyval) : bool := match v with PRef _ => true | _ => false end.
 
 (* ---- programs: finite trees of scripted events *)
-Inductive res := RRet (v : pyval) | RRaise.
 Inductive schan := SDefault | SApp | SOther | SBoth.        (* event.success_channels *)
 
 Inductive ev :=
 | Ev (lbl : nat) (succ fail notify both : bool) (sch : schan) (hs : list hdl)
 with hdl :=
 | HP (kids : list ev) (r : res)                  (* plain handler: fires kids, then returns / raises *)
-| HG (ys : list (list ev * pyval)) (lk : list ev) (graise : bool).
+| HG (ys : list (list ev * pyval)) (lk : list ev) (graise : bool)
       (* generator handler: segment k < length ys fires (fst) and yields (snd); the terminal segment
          (k = length ys) fires lk and then returns (StopIteration) or raises *)
+with res :=
+| RRet (v : pyval) | RRaise
+| RNest (sp : ev).     (* `return self.fire(sp)`: fires the nested event sp and returns its Value *)
 
 Definition ev_lbl (e : ev) := let 'Ev l _ _ _ _ _ _ := e in l.
 Definition ev_succ (e : ev) := let 'Ev _ b _ _ _ _ _ := e in b.
@@ -76,6 +80,7 @@ Record st := {
   spec : nat -> ev;
   kind : nat -> kindT;
   val : nat -> value;             (* event.value *)
+  vpar : nat -> option nat;       (* event.value.parent: Some p = the Value of event p; None = itself *)
   waiting : nat -> nat;           (* event.waitingHandlers *)
   phase : nat -> phaseT;          (* ghost: queued / dispatched, generators pending / passed the _eventDone gate *)
   queue : list nat;
@@ -90,32 +95,32 @@ Definition dummy : ev := Ev 0 false false false false SDefault [].
 
 Definition init : st :=
   {| next := 0; spec := fun _ => dummy; kind := fun _ => KUser; val := fun _ => vinit;
-     waiting := fun _ => 0; phase := fun _ => PQueued; queue := []; tasks := []; log := [] |}.
+     vpar := fun _ => None; waiting := fun _ => 0; phase := fun _ => PQueued; queue := []; tasks := []; log := [] |}.
 
 (* ---- field setters *)
 Definition set_val (e : nat) (v : value) (s : st) : st :=
-  {| next := next s; spec := spec s; kind := kind s; val := upd (val s) e v; waiting := waiting s;
+  {| next := next s; spec := spec s; kind := kind s; val := upd (val s) e v; vpar := vpar s; waiting := waiting s;
      phase := phase s; queue := queue s; tasks := tasks s; log := log s |}.
 Definition set_wait (e : nat) (n : nat) (s : st) : st :=
-  {| next := next s; spec := spec s; kind := kind s; val := val s; waiting := upd (waiting s) e n;
+  {| next := next s; spec := spec s; kind := kind s; val := val s; vpar := vpar s; waiting := upd (waiting s) e n;
      phase := phase s; queue := queue s; tasks := tasks s; log := log s |}.
 Definition set_phase (e : nat) (p : phaseT) (s : st) : st :=
-  {| next := next s; spec := spec s; kind := kind s; val := val s; waiting := waiting s;
+  {| next := next s; spec := spec s; kind := kind s; val := val s; vpar := vpar s; waiting := waiting s;
      phase := upd (phase s) e p; queue := queue s; tasks := tasks s; log := log s |}.
 Definition set_queue (q : list nat) (s : st) : st :=
-  {| next := next s; spec := spec s; kind := kind s; val := val s; waiting := waiting s;
+  {| next := next s; spec := spec s; kind := kind s; val := val s; vpar := vpar s; waiting := waiting s;
      phase := phase s; queue := q; tasks := tasks s; log := log s |}.
 Definition set_tasks (t : list task) (s : st) : st :=
-  {| next := next s; spec := spec s; kind := kind s; val := val s; waiting := waiting s;
+  {| next := next s; spec := spec s; kind := kind s; val := val s; vpar := vpar s; waiting := waiting s;
      phase := phase s; queue := queue s; tasks := t; log := log s |}.
 Definition add_log (x : entry) (s : st) : st :=
-  {| next := next s; spec := spec s; kind := kind s; val := val s; waiting := waiting s;
+  {| next := next s; spec := spec s; kind := kind s; val := val s; vpar := vpar s; waiting := waiting s;
      phase := phase s; queue := queue s; tasks := tasks s; log := x :: log s |}.
 
 (* ---- fire: Event.__init__ + Value(event, self) + _EventQueue.append (all events have priority 0) *)
 Definition alloc (k : kindT) (sp : ev) (s : st) : st :=
   let d := next s in
-  {| next := S d; spec := upd (spec s) d sp; kind := upd (kind s) d k; val := upd (val s) d vinit;
+  {| next := S d; spec := upd (spec s) d sp; kind := upd (kind s) d k; val := upd (val s) d vinit; vpar := vpar s;
      waiting := upd (waiting s) d 0; phase := upd (phase s) d PQueued;
      queue := queue s ++ [d]; tasks := tasks s; log := log s |}.
 
@@ -150,11 +155,52 @@ Definition inform (force : bool) (e : nat) (s : st) : st :=
   if vpromise (val s e) && negb force then s
   else if ev_notify (spec s e) then fire_der DVC e s else s.
 
-Definition set_value (e : nat) (x : pyval) (s : st) : st :=
+(* setValue(x) of the Value of e for an x that is not itself a Value: store, `update(self, x)` without
+   the walk up the parent chain *)
+Definition set_value_local (e : nat) (x : pyval) (s : st) : st :=
   let v := val s e in
   let s1 := set_val e {| vv := set_py (vv v) (vresult v) x; vresult := vresult v || negb (is_none x);
                          verrors := verrors v; vpromise := vpromise v |} s in
   if is_none x then s1 else inform false e s1.
+
+Definition set_par (d p : nat) (s : st) : st :=
+  {| next := next s; spec := spec s; kind := kind s; val := val s; vpar := upd (vpar s) d (Some p);
+     waiting := waiting s; phase := phase s; queue := queue s; tasks := tasks s; log := log s |}.
+
+Definition with_flags (v : value) (r er : bool) : value :=
+  {| vv := vv v; vresult := r; verrors := er; vpromise := vpromise v |}.
+
+(* the tail of `update(o, v)`: `if o.parent is not o: o.parent.errors = o.errors; o.parent.result = o.result;
+   update(o.parent, v)` — up the chain of parent Values (a parent is always an older event: fuel S o) *)
+Fixpoint propagate (fuel : nat) (o : nat) (x : pyval) (s : st) : st :=
+  match fuel with
+  | O => s
+  | S f =>
+      match vpar s o with
+      | None => s
+      | Some p =>
+          let s1 := set_val p (with_flags (val s p) (vresult (val s o)) (verrors (val s o))) s in
+          let s2 := match x with
+                    | PRef d => set_val p (with_flags (val s1 p) (vresult (val s1 d)) (verrors (val s1 d))) s1
+                    | PNone => s1
+                    | _ => inform false p (set_val p (with_flags (val s1 p) true (verrors (val s1 p))) s1)
+                    end in
+          propagate f p x s2
+      end
+  end.
+
+(* Value.setValue: a Value argument gets `parent = self`, is stored like any result, and its result / errors
+   flags are copied (no inform); any other argument as above; then the parent chain *)
+Definition set_value (e : nat) (x : pyval) (s : st) : st :=
+  match x with
+  | PRef d =>
+      let s0 := set_par d e s in
+      let v := val s0 e in
+      propagate (S e) e x
+        (set_val e {| vv := set_py (vv v) (vresult v) x; vresult := vresult (val s0 d);
+                      verrors := verrors (val s0 d); vpromise := vpromise v |} s0)
+  | _ => propagate (S e) e x (set_value_local e x s)
+  end.
 
 Definition set_errors (e : nat) (s : st) : st :=
   let v := val s e in
@@ -188,6 +234,7 @@ Definition run_handler (e i : nat) (h : hdl) (err : bool) (s : st) : st * bool :
       match r with
       | RRaise => (set_value e PErr (raise_feedback e (set_errors e s1)), true)
       | RRet v => (if is_none v then s1 else set_value e v s1, err)
+      | RNest sp => (set_value e (PRef (next s1)) (fire_user sp s1), err)
       end
   | HG _ _ _ => (add_task e i s, err)
   end.
@@ -395,3 +442,17 @@ Fixpoint accum_from (cur : pyval) (result : bool) (l : list pyval) : pyval :=
   | x :: r => accum_from (set_py cur result x) true r
   end.
 Definition accum (l : list pyval) : pyval := accum_from PNone false l.
+
+(* ---- programs of the original grammar: no handler returns the Value of a nested event, no script value is
+   a Value reference *)
+Fixpoint plain_ev (e : ev) : bool :=
+  match e with Ev _ _ _ _ _ _ hs => forallb plain_hdl hs end
+with plain_hdl (h : hdl) : bool :=
+  match h with
+  | HP kids r => forallb plain_ev kids &&
+                 match r with RRet v => negb (is_ref v) | RRaise => true | RNest _ => false end
+  | HG ys lk _ => forallb (fun p => forallb plain_ev (fst p) && negb (is_ref (snd p))) ys && forallb plain_ev lk
+  end.
+
+Definition reachable_plain (s : st) : Prop :=
+  exists roots ls, forallb plain_ev roots = true /\ s = exec ls (start roots).
